@@ -146,6 +146,40 @@ let handle (line:string) : string =
      | None -> "NONE"
      | Some f -> "OK " ^ String.concat " " [str_num f.best; str_num f.f_left; str_num f.f_right; str_ovar f.f_var; str_onum f.f_exp;
                                             str_onum f.l_exp; str_onum f.r_exp; str_ovar f.l_var; str_ovar f.r_var])
+  | "HIST" :: ws ->
+    (* ops separated by "|":  P <cps> | T <cps> | C | POP k | SET k i kindcode:cps | CLR k   (k = index of the k-th list handed out) *)
+    let rec split_bar acc cur = function
+      | [] -> List.rev (List.rev cur :: acc)
+      | "|" :: r -> split_bar (List.rev cur :: acc) [] r
+      | x :: r -> split_bar acc (x :: cur) r in
+    let ops = split_bar [] [] ws in
+    let st = ref init in
+    let handed = ref [] in
+    let rec nat_of_int k = if k <= 0 then O else S (nat_of_int (k - 1)) in
+    let kind_of_code c = List.find (fun k -> int_of_n (tok_code k) = c)
+      [TConst; TVar; TPlus; TMinus; TMul; TDiv; TExp; TFact; TOpen; TClose; TFunc; TEqual; TPad; TEOF; TInvalid] in
+    let href k = (try List.nth (List.rev !handed) k with _ -> nat_of_int 100000) in
+    let outs = List.map (fun o ->
+      let op = (match o with
+        | "P" :: cps -> OParse (cps_of cps)
+        | "T" :: cps -> OTokenize (cps_of cps)
+        | ["C"] -> OClear
+        | ["POP"; k] -> OClientPop (href (int_of_string k))
+        | ["CLR"; k] -> OClientClear (href (int_of_string k))
+        | ["SET"; k; i; t] ->
+          let (c, v) = (match String.split_on_char ':' t with [c; v] -> (c, v) | _ -> failwith "tok") in
+          let cps = List.filter (fun w -> w <> "") (String.split_on_char '.' v) in
+          OClientSet (href (int_of_string k), nat_of_int (int_of_string i), { tk = kind_of_code (int_of_string c); tv = cps_of cps })
+        | _ -> failwith "hist op") in
+      let (st', out) = pstep !st op in
+      st := st';
+      (match out with
+       | RTree (Ok e) -> "OK " ^ str_expr e
+       | RTree (Raises x) -> "EXC " ^ str_exn x
+       | RTokens (Some (r, ts)) -> handed := r :: !handed; "TOKS " ^ String.concat " " (List.map str_token ts)
+       | RTokens None -> "EXC ValueError"
+       | RUnit -> "-")) ops in
+    String.concat " | " outs
   | "MAKETERM" :: c :: v :: e :: [] ->
     (match make_term (num_of_string c) (ovar_of v) (onum_of e) with Some t -> "OK " ^ str_expr t | None -> "NONE")
   | _ -> "?"
